@@ -59,7 +59,7 @@ func runSolver(sp solverSpec, file string, timeout time.Duration) (string, strin
 			break
 		}
 	}
-	if first == "" {
+	if first == "" || strings.Contains(text, "(error ") {
 		if ctx.Err() != nil {
 			first = "timeout"
 		} else {
@@ -78,9 +78,12 @@ func Discharge(obls []*Obligation, cfg SolverCfg) {
 	}
 	jobs := make(chan job)
 	var wg sync.WaitGroup
-	n := runtime.NumCPU()
-	if n > 16 {
-		n = 16
+	n := runtime.NumCPU() / 2
+	if n > 8 {
+		n = 8
+	}
+	if n < 2 {
+		n = 2
 	}
 	for k := 0; k < n; k++ {
 		wg.Add(1)
@@ -99,6 +102,9 @@ func Discharge(obls []*Obligation, cfg SolverCfg) {
 }
 
 func dischargeOne(o *Obligation, idx int, cfg SolverCfg) {
+	if o.Preset {
+		return
+	}
 	file := filepath.Join(cfg.WorkDir, fmt.Sprintf("o%04d.smt2", idx))
 	text := o.SMT(false)
 	if len(text) > 4<<20 {
@@ -115,15 +121,15 @@ func dischargeOne(o *Obligation, idx int, cfg SolverCfg) {
 		return
 	}
 	// stage 1: z3-new alone with a short budget
-	short := 4 * time.Second
+	short := 6 * time.Second
 	if cfg.Timeout < short {
 		short = cfg.Timeout
 	}
 	type r1 struct {
 		res, out, name string
 	}
-	c1 := make(chan r1, 2)
-	for _, sp := range solvers[:2] {
+	c1 := make(chan r1, 3)
+	for _, sp := range solvers[:3] {
 		sp := sp
 		go func() {
 			a, b, _ := runSolver(sp, file, short)
@@ -131,7 +137,7 @@ func dischargeOne(o *Obligation, idx int, cfg SolverCfg) {
 		}()
 	}
 	res, out := "unknown", ""
-	for k := 0; k < 2; k++ {
+	for k := 0; k < 3; k++ {
 		g := <-c1
 		if g.res == "unsat" && !cfg.AllAgree {
 			o.Result, o.Solver, o.Output = g.res, g.name, ""
@@ -189,8 +195,11 @@ func dischargeOne(o *Obligation, idx int, cfg SolverCfg) {
 		if final.res != "sat" {
 			// classify: timeout if any solver timed out
 			for _, g := range got {
-				if g.res == "timeout" {
+				if g.res == "timeout" && o.Result != "error" {
 					o.Result = "timeout"
+				}
+				if g.res == "error" {
+					o.Result = "error"
 				}
 			}
 		}
